@@ -249,7 +249,19 @@ def run(ctx):
         T = tab.shape[0]
         betas = [float(sc["value"])] * T if sc["kind"] != "ndarray" else [float(x) for x in sc["value"]]
         if T * K <= 1200 and np.all(np.isfinite(tab)) and not cfg.get("scripted"):
-            _, nopt = exact_dp(tab.tolist(), betas)
+            opt_, nopt = exact_dp(tab.tolist(), betas)
+            # the returned labelling must be a minimum-cost labelling for the returned model (exact rationals; the slack covers
+            # the rounding of the kernel's own additions)
+            from .c01 import exact_cost as _exact_cost
+            got_ = _exact_cost(tab.tolist(), betas, [int(x) for x in lo[-1]["labels"]])
+            slack_ = 16 * T * 2.0 ** -52 * (float(np.sum(np.abs(tab))) + sum(abs(b) for b in betas))
+            if float(got_ - opt_) > slack_:
+                ctx.violation("monitor", "the returned labelling is not a minimum-cost labelling for the returned model: its cost %.6f exceeds the optimum %.6f "
+                              "of the last round's cost table (switching cost given %s)" % (float(got_), float(opt_), "per pair" if sc["kind"] == "ndarray" else "as one number"),
+                              {"case": case})
+            if abs(float(lo[-1]["cost"]) - float(got_)) > slack_:
+                ctx.violation("monitor", "the cost the last round reports (%.6f) is not the cost %.6f of the labelling it returns under the last round's cost table "
+                              "(switching cost given %s)" % (float(lo[-1]["cost"]), float(got_), "per pair" if sc["kind"] == "ndarray" else "as one number"), {"case": case})
             vit_lits.append("(%s, %s, %s, %s, %s)" % (c_nat(K), c_list([c_list([c_float(x) for x in row]) for row in tab]),
                                                     c_list([c_float(b) for b in betas]), c_list(lo[-1]["labels"], c_nat), c_float(lo[-1]["cost"])))
             meta_v.append((case, nopt == 1))
